@@ -199,6 +199,7 @@ func runC17(c *Ctx) {
 	c.R.Floor(rule, cfg, len(pairs), 9)
 	ruleEncodersPure(c, p, "C17.encode-pure")
 	ruleTraceStateInverse(c, p, "C17.tracestate")
+	ruleDecodedValueStored(c, p, "C17.decoded-stored")
 	ruleShapePairs(c, p, rule, pairs, false)
 
 	ruleGates(c, p, pairs, "C17.gates")
